@@ -231,7 +231,20 @@ def _opts(rng):
     if rng.random() < 0.15:
         o["showBorder"] = True
     if rng.random() < 0.15:
-        o["latex"] = {"reproducible": True}
+        o["latex"] = rng.choice([{"reproducible": True}, {"fontsize": "9pt"}, {"tickCross": True, "linkThickness": "thin"}, {}])
+    # the other documented top-level keys, each complete where it is a dict ("partial" = keys omitted)
+    if rng.random() < 0.2:
+        o["dotRadius"] = rng.choice([1, 3, 4.5])
+    if rng.random() < 0.2:
+        o["labelPadding"] = {"left": rng.choice([0, 2, 5]), "right": rng.choice([0, 2, 5]), "top": rng.choice([0, 3]), "bottom": rng.choice([0, 2])}
+    if rng.random() < 0.2:
+        o["margin"] = {"left": rng.choice([0, 20, 35]), "right": rng.choice([0, 20]), "top": rng.choice([0, 20, 35]), "bottom": rng.choice([0, 20])}
+    if rng.random() < 0.25:
+        role = rng.choice(["dotColor", "labelBgColor", "labelTextColor", "linkColor", "borderColor"])
+        o[role] = rng.choice(["#0af", "#00aaff", "0AF", ["#111", "#22cc88", "#f00"], ["#abc"]])
+    if rng.random() < 0.1:
+        o["textXOffset"] = "0.2em"
+        o["textYOffset"] = "0.9em"
     return o
 
 
